@@ -49,6 +49,8 @@ def gen(tier, seed, shard, nshards):
 
 def setup(rec):
     import sempler.utils as U
+    G.self_check()
+    rec.count("oracle:self-check-passed")
     origs = [U.rule_1, U.rule_2, U.rule_3, U.rule_4]
 
     def rule_1_monitor(i, j, A):
@@ -110,6 +112,8 @@ def judge(family, case, rec):
         res, raised = None, "other"
     if raised is None:
         got = tuple(gmat.masks(res))
+        if (sum(out) + p) % 3 == 0:
+            _gc.repeat_after_overwrite(rec, family, case, "C09", "pdag_to_dag", U.pdag_to_dag, (before.copy(),), res)
         if not ext:
             rec.violation("C09:pdag_to_dag-returns-for-unextendable", family, case,
                           "pdag_to_dag returned a graph but no consistent extension exists", returned=_gc.rows(got), **ctx)
@@ -142,6 +146,8 @@ def judge(family, case, rec):
             rec.exception_violation("C09:maximally_orient-exception", family, case, "maximally_orient raised", e)
             return
         got = gmat.masks(M)
+        if (sum(out) + p) % 3 == 1:
+            _gc.repeat_after_overwrite(rec, family, case, "C09", "maximally_orient", U.maximally_orient, (before.copy(),), M)
         if got != want:
             Pw, Pg = G.Parts(want), G.Parts(got)
             if Pg.adj != Pw.adj:
